@@ -110,15 +110,15 @@ Definition df_mantissa (f : dec_float) : N := dec_acc 0 (df_int f ++ df_frac f).
 Definition df_exp10 (f : dec_float) : Z :=
   ((if df_exp_neg f then - Z.of_N (dec_acc 0 (df_exp f)) else Z.of_N (dec_acc 0 (df_exp f)))
    - Z.of_N (lenN (df_frac f)))%Z.
-Definition df_ndigits (f : dec_float) : N := lenN (df_int f ++ df_frac f).
 
 (* mantissa * 10^exp10 >= 2^1024 - 2^970, computed without ever raising 10 to an exponent that is not bounded by
-   400 or by the number of digits in hand (the exponent is a number from the input) *)
+   400 or by the size of the mantissa in hand (the exponent is a number from the input): a mantissa m > 0 is below
+   2^(log2 m + 1) <= 10^(log2 m + 1) *)
 Definition overflow_threshold : Z := (2 ^ 1024 - 2 ^ 970)%Z.
-Definition overflows_exec (m : N) (e : Z) (ndigits : N) : bool :=
+Definition overflows_exec (m : N) (e : Z) : bool :=
   if m =? 0 then false
   else if (400 <? e)%Z then true
-  else if (e + Z.of_N ndigits <=? 0)%Z then false
+  else if (e + Z.of_N (N.log2 m + 1) <=? 0)%Z then false
   else if (0 <=? e)%Z then (overflow_threshold <=? Z.of_N m * 10 ^ e)%Z
   else (overflow_threshold * 10 ^ (- e) <=? Z.of_N m)%Z.
 
@@ -126,6 +126,6 @@ Inductive float_class := FFinite | FInfinite.
 (* class of the value stored by  inner.as_str().parse::<f64>()  for a float_value token *)
 Definition float_model_class (s : list N) : option float_class :=
   match split_float s with
-  | Some f => Some (if overflows_exec (df_mantissa f) (df_exp10 f) (df_ndigits f) then FInfinite else FFinite)
+  | Some f => Some (if overflows_exec (df_mantissa f) (df_exp10 f) then FInfinite else FFinite)
   | None => None
   end.
